@@ -1450,9 +1450,72 @@ fn merge_accumulator_states(
             target.sum_fourth += source.sum_fourth;
         }
         _ => {
-            // For other functions, just merge counts and sums
+            // Every other function keeps its partial result in a field of its
+            // own. Merging only count and sum (as this arm used to) dropped
+            // that field, so COUNT_IF, BOOL_AND/BOOL_OR, ANY_VALUE, the bitwise
+            // aggregates, LISTAGG, GEOMETRIC_MEAN, CORR/COVAR, MAX_BY/MIN_BY
+            // and APPROX_PERCENTILE answered from ONE partial state whenever
+            // the input was aggregated in more than one piece. Each field
+            // merges by its own rule; fields a function does not use are at
+            // their identity.
             target.count += source.count;
             target.sum += source.sum;
+            target.sum_i64 = target.sum_i64.saturating_add(source.sum_i64);
+            target.sum_squares += source.sum_squares;
+            target.count_if += source.count_if;
+            target.bool_and = match (target.bool_and, source.bool_and) {
+                (Some(a), Some(b)) => Some(a && b),
+                (a, None) => a,
+                (None, b) => b,
+            };
+            target.bool_or = match (target.bool_or, source.bool_or) {
+                (Some(a), Some(b)) => Some(a || b),
+                (a, None) => a,
+                (None, b) => b,
+            };
+            if target.any_value.is_none() {
+                target.any_value = source.any_value.clone();
+            }
+            target.log_sum += source.log_sum;
+            target.log_count += source.log_count;
+            target.bitwise_and = match (target.bitwise_and, source.bitwise_and) {
+                (Some(a), Some(b)) => Some(a & b),
+                (a, None) => a,
+                (None, b) => b,
+            };
+            target.bitwise_or = match (target.bitwise_or, source.bitwise_or) {
+                (Some(a), Some(b)) => Some(a | b),
+                (a, None) => a,
+                (None, b) => b,
+            };
+            target.bitwise_xor ^= source.bitwise_xor;
+            target
+                .string_list
+                .extend(source.string_list.iter().cloned());
+            target.sum_x += source.sum_x;
+            target.sum_y += source.sum_y;
+            target.sum_xy += source.sum_xy;
+            target.sum_x_squares += source.sum_x_squares;
+            target.sum_y_squares += source.sum_y_squares;
+            if let Some(sv) = source.max_by_value {
+                if target.max_by_value.map_or(true, |tv| sv > tv) {
+                    target.max_by_value = Some(sv);
+                    target.max_by_result = source.max_by_result.clone();
+                }
+            }
+            if let Some(sv) = source.min_by_value {
+                if target.min_by_value.map_or(true, |tv| sv < tv) {
+                    target.min_by_value = Some(sv);
+                    target.min_by_result = source.min_by_result.clone();
+                }
+            }
+            // the requested percentile is recorded with the first value seen
+            if target.approx_values.is_empty() && !source.approx_values.is_empty() {
+                target.percentile = source.percentile;
+            }
+            target
+                .approx_values
+                .extend(source.approx_values.iter().cloned());
         }
     }
 }
